@@ -57,6 +57,13 @@ def values():
     V.append(("array-edge", "float [[1e-300],[-1.7976931348623157e308]]", lambda: np.array([[1e-300], [-1.7976931348623157e308]])))
     V.append(("array-edge", "complex signs of zero", lambda: np.array([[complex(-0.0, -0.0), complex(1, -0.0)], [complex(-0.0, 2), complex(0.0, -5e-324)]])))
     V.append(("array-edge", "int64 extremes", lambda: np.array([[2 ** 63 - 1, -2 ** 63]], dtype=np.int64)))
+    # sizes beyond what array printers wrap or abbreviate (75 characters per line, 1000 elements)
+    V.append(("array-large", "int identity 30x30", lambda: np.eye(30, dtype=np.int64)))
+    V.append(("array-large", "int 1x1200", lambda: np.arange(1200, dtype=np.int64).reshape(1, 1200)))
+    V.append(("array-large", "int 2x6 of 19-digit numbers", lambda: (np.arange(12, dtype=np.int64).reshape(2, 6) + 2 ** 62)))
+    V.append(("array-large", "float 2x40", lambda: (np.arange(80, dtype=np.float64).reshape(2, 40) - 40.5) / 7))
+    V.append(("array-large", "complex 40x2", lambda: ((np.arange(80).reshape(40, 2) - 40) * (1 / 3 - 0.7j))))
+    V.append(("array-large", "float 1x1001", lambda: np.linspace(-1, 1, 1001).reshape(1, 1001)))
     # values that collide under a coarser equality: same shape and same memory image, different dtype
     V.append(("array-collide", "int64 zeros 2x2", lambda: np.zeros((2, 2), dtype=np.int64)))
     V.append(("array-collide", "float64 zeros 2x2", lambda: np.zeros((2, 2), dtype=np.float64)))
@@ -213,6 +220,27 @@ def judge(spec):
         d = [x for x in d if not x.startswith("parameters")]
     if d:
         return (key("differs", equiv.classify(d)), "; ".join(d)[:300] + " ;; " + t[-200:])
+    if spec.get("edit"):
+        # the caller goes on working with the program after a first dumps: an argument is replaced by another value,
+        # an operation is added - the next dumps describes the program as it is now
+        p.operations[0]["args"][0] = V[spec["edit"]][2]()
+        p.operations.append({"op": "Added", "args": [V[spec["edit"]][2]()], "kwargs": {}, "modes": [5]})
+        st4, t4 = common.dumps(p)
+        if st4 == "exc":
+            return (key("dumps-after-edit-raises", type(t4).__name__), common.exc_sig(t4))
+        st5, q5 = common.loads(t4)
+        if st5 == "exc":
+            return (key("reload-after-edit-raises", type(q5).__name__), common.exc_sig(q5) + " ;; " + t4[-200:])
+        want = make(spec)
+        want.operations[0]["args"][0] = V[spec["edit"]][2]()
+        want.operations.append({"op": "Added", "args": [V[spec["edit"]][2]()], "kwargs": {}, "modes": [5]})
+        want.modes.add(5)
+        d = equiv.prog_equiv(want, q5)
+        if set(want.parameters) != _written_parameters(want):
+            d = [x for x in d if not x.startswith("parameters")]
+        d = [x for x in d if not x.startswith("modes")]
+        if d:
+            return (key("differs-after-edit", equiv.classify(d)), "; ".join(d)[:300] + " ;; " + t4[-200:])
     if spec.get("share"):
         # serialising must leave the values it was given as they were, and give the same text again
         st3, t3 = common.dumps(p)
@@ -245,7 +273,8 @@ def build(ctx):
     scalars = [i for i in idx if not V[i][0].startswith(("list", "array", "sweep"))]
     sweep = [i for i in idx if V[i][0].startswith("sweep")]
     lists = [i for i in idx if V[i][0].startswith("list")]
-    arrays = [i for i in idx if V[i][0].startswith("array")]
+    arrays = [i for i in idx if V[i][0].startswith("array") and V[i][0] != "array-large"]
+    large = [i for i in idx if V[i][0] == "array-large"]
     specs = []
     fam = collections.Counter()
     label = {V[i][1]: i for i in idx}
@@ -261,6 +290,9 @@ def build(ctx):
     for i in scalars + lists + arrays[:3]:
         add("target option", {"target": ("X8_01", [("o", i)]), "ops": [{"op": "G", "noargs": True, "modes": [0]}]})
         add("type option", {"type": ("tdm", [("o", i)]), "ops": [{"op": "G", "args": [1], "modes": [0]}]})
+    for i in large:
+        add("large arrays", {"ops": [{"op": "G", "args": [i], "modes": [0]}]})
+        add("large arrays", {"type": ("tdm", []), "ops": [{"op": "G", "args": [1], "kwargs": [("k", i)], "modes": [0]}, {"op": "H", "args": [i], "modes": [1]}], "share": True})
     for i in sweep:
         add("sweep: every position", {"target": ("g", [("o", i)]), "type": ("t", [("p", i)]), "ops": [{"op": "G", "args": [i, 1], "kwargs": [("k", i)], "modes": [0]}], "file": True})
         add("sweep: alone", {"ops": [{"op": "G", "args": [i], "modes": [0]}]})
@@ -269,6 +301,11 @@ def build(ctx):
     for i in arrays + lists:
         add("one object, several uses", {"ops": [{"op": "G", "args": [i], "modes": [0]}, {"op": "H", "args": [1], "kwargs": [("k", i)], "modes": [1]}, {"op": "K", "args": [i, i], "modes": [0, 1]}], "share": True}
             if i in arrays else {"target": ("g", [("o", i)]), "ops": [{"op": "H", "args": [1], "kwargs": [("k", i), ("l", i)], "modes": [1]}], "share": True})
+    for (i, j), ty in itertools.product(itertools.product(arrays[::3] + scalars[:3], arrays[1::4] + scalars[3:5]), (None, ("tdm", []), ("t", [("z", 1)]))):
+        spec = {"ops": [{"op": "G", "args": [i, 1], "kwargs": [("k", i)], "modes": [0]}, {"op": "H", "args": [2], "modes": [1]}], "edit": j}
+        if ty:
+            spec["type"] = ty
+        add("dumps, edit, dumps again", spec)
     step = 1
     for i, j in itertools.product(scalars[::step] + arrays[::4], repeat=2):
         add("2 positional", {"ops": [{"op": "G", "args": [i, j], "modes": [1, 0], "npmodes": True}]})
